@@ -26,7 +26,7 @@ import socket
 
 from ..leanclient import hx
 
-TRANSLATORS = ["ct", "rsadecrypt"]
+TRANSLATORS = ["ct", "rsadecrypt", "cryptomath"]
 
 MANIFEST = {
     "text": "Proof: Tls.Rsa.decrypt (statement-by-statement Lean model of RSAKey.decrypt with its masked arithmetic, over abstract "
@@ -1400,6 +1400,7 @@ def run(ctx):
     construction_path_cases(ctx)
     pcke_cases(ctx, keys[2][1])
     server_cases(ctx)
+    cryptomath_oracle(ctx)
     broken = gen_obligations_broken(ctx)
     if broken:
         # the regenerated source no longer computes the hand model: look for a concrete input on which
@@ -1407,6 +1408,49 @@ def run(ctx):
         ctx.extra["gen_obligations_broken"] = broken
         if not any(v["found"] for v in ctx.violations):
             deep_search(ctx, keys)
+
+
+def cryptomath_oracle(ctx, prefix="c11", deep=False):
+    """direct oracle: cryptomath's number <-> bytes helpers of the tree under check against their plain
+    specification (int.bit_length, big/little endian positional notation, ceiling division)"""
+    from tlslite.utils import cryptomath as cm
+    rng = ctx.rng
+    vals = [0, 1, 2, 127, 128, 255, 256, 257, 65535, 65536, (1 << 64) - 1, 1 << 64, (1 << 1023), (1 << 1024) - 1, 1 << 1024]
+    vals += [rng.getrandbits(rng.choice([7, 8, 9, 15, 16, 17, 63, 64, 65, 511, 512, 513, 1031])) for _ in range(60 if deep else 20)]
+
+    def call(f, *a):
+        try:
+            r = f(*a)
+        except Exception as e:
+            return "exception:" + type(e).__name__
+        return bytes(r) if isinstance(r, (bytes, bytearray)) else r
+
+    def check(name, args, got, want):
+        ctx.count("cryptomath-oracle")
+        if got != want:
+            ctx.violation("%s:cryptomath-%s" % (prefix, name),
+                          "cryptomath.%s%r returned %r, its specification says %r" % (name, tuple(args), got, want),
+                          {"stage": "cryptomath", "fn": name, "args": [a if not isinstance(a, bytes) else a.hex() for a in args],
+                           "got": repr(got), "want": repr(want)})
+
+    for v in vals:
+        bl = v.bit_length()
+        nb = (bl + 7) // 8
+        check("numBits", [v], call(cm.numBits, v), bl)
+        check("numBytes", [v], call(cm.numBytes, v), nb)
+        for k in sorted(set([0, 1, 2, 4, nb - 1 if nb else 0, nb, nb + 1, nb + 5])):
+            full = v.to_bytes(max(nb, k), "big")
+            check("numberToByteArray", [v, k], call(cm.numberToByteArray, v, k), full[len(full) - k:] if k else b"")
+            check("numberToByteArray-little", [v, k, "little"], call(cm.numberToByteArray, v, k, "little"),
+                  (full[len(full) - k:] if k else b"")[::-1])
+        check("numberToByteArray-none", [v], call(cm.numberToByteArray, v), v.to_bytes(max(nb, 1), "big"))
+        b = v.to_bytes(nb + rng.randrange(0, 3), "big")
+        check("bytesToNumber", [b], call(cm.bytesToNumber, bytearray(b)), v)
+        check("bytesToNumber-little", [b, "little"], call(cm.bytesToNumber, bytearray(b), "little"),
+              int.from_bytes(b, "little"))
+        for d in (1, 2, 7, 8, 9, 32, 64):
+            check("divceil", [v, d], call(cm.divceil, v, d), -(-v // d))
+    ctx.case(key=("cryptomath-oracle", prefix, deep), sample=None)
 
 
 def gen_obligations_broken(ctx):
@@ -1423,6 +1467,7 @@ def deep_search(ctx, keys):
     from . import c12
     try:
         c12.helper_oracle(ctx, deep=True, prefix="c11")
+        cryptomath_oracle(ctx, deep=True)
     except Exception as e:
         ctx.count("deep-search-error:helper:" + type(e).__name__)
     sizes = [136, 200, 208, 264, 272, 584, 600, 1112, 2056]
@@ -1457,6 +1502,12 @@ def replay(ctx, rep):
     if stage == "helper":
         from . import c12
         return c12.replay(ctx, rep)
+    if stage == "cryptomath":
+        n0 = len(ctx.violations)
+        cryptomath_oracle(ctx, prefix=rep.get("key", "c11:").split(":")[0], deep=True)
+        for v in ctx.violations[n0:]:
+            print(v["what"][:300])
+        return len(ctx.violations) > n0
     if stage == "decrypt":
         nums = blob_key(inp["key"])
         c = bytes.fromhex(inp["c"])
